@@ -44,6 +44,7 @@ class UnitResult:
         self.twin = twin
         self.meta = None
         self.undecided = []       # list of reasons
+        self.soft_undecided = []  # clause-scoped (a dropped hint): do not mask decided failures of other clauses
         self.failures = []        # dicts: obligation, fn, label, kind, message, origin, rendered, props
         self.fn_success = {}      # fn short name -> bool
         self.fn_time_us = {}
@@ -57,10 +58,10 @@ class UnitResult:
         self.wall = 0.0
 
 
-def run_unit(unit, twin=False, rlimit=None, threads=2):
+def run_unit(unit, twin=False, rlimit=None, threads=2, auto_fns=None, _depth=0):
     res = UnitResult(unit, twin)
     t0 = time.time()
-    g = Gen(unit, false_twin=twin)
+    g = Gen(unit, false_twin=twin, auto_fns=auto_fns)
     try:
         text = g.build()
     except Undecided as e:
@@ -122,6 +123,23 @@ def run_unit(unit, twin=False, rlimit=None, threads=2):
                 res.fn_time_us[short] = res.fn_time_us.get(short, 0) + fb.get('time-micros', 0)
     except Exception:
         pass
+    # a function under contract calls a helper that no template knows (typically introduced by the change under test):
+    # include its real text without a contract and try again
+    missing = {}
+    for d in diags:
+        m = re.search(r'cannot find function `(\w+)` in this scope', d.get('message', ''))
+        if m and d.get('level') == 'error':
+            for sp in d.get('spans', []):
+                if sp.get('is_primary') and 0 < sp['line_start'] <= len(g.origin):
+                    o = g.origin[sp['line_start'] - 1]
+                    caller = _fn_at(g, sp['line_start'])
+                    if o[0] == 'repo':
+                        missing.setdefault((o[1], m.group(1)), set()).update(caller['props'] if caller else [])
+    if missing and _depth < 3:
+        merged = dict(auto_fns or {})
+        for k, v in missing.items():
+            merged[k] = set(merged.get(k, set())) | v
+        return run_unit(unit, twin, rlimit, threads, merged, _depth + 1)
     if vr.get('encountered-vir-error'):
         res.undecided.append('verus front-end (VIR) error in the generated view')
     # map diagnostics
@@ -153,7 +171,13 @@ def run_unit(unit, twin=False, rlimit=None, threads=2):
             res.undecided.append('verus rejected the generated view: ' + msg + ' ' + _where(d, g)
                                  + ' :: ' + d.get('rendered', '')[:1500])
             continue
-        res.failures.append(_map_failure(d, kind, g, unit))
+        f = _map_failure(d, kind, g, unit)
+        dropped = [h for h in g.dropped_hints if h['fn'] == f['fn'] and (f['label'] in h['for'] or (f['label'] is None and 'safety' in h['for']))]
+        if dropped:
+            res.soft_undecided.append(f'{f["obligation"]} fails, but the proof hint anchored on /{dropped[0]["anchor"]}/ that supports it '
+                                 f'lost its anchor (the function body changed): cannot tell a broken clause from a missing hint')
+            continue
+        res.failures.append(f)
     if p.returncode != 0 and not res.failures and not res.undecided:
         res.undecided.append('verus exit %d with no mapped diagnostic: %s' % (p.returncode, p.stderr[-1500:]))
     return res
